@@ -945,7 +945,17 @@ func (e *connectWireError) MarshalJSON() ([]byte, error) {
 func (e *connectWireError) UnmarshalJSON(data []byte) error {
 	var wire errorv1.Error
 	if err := (&protoJSONCodec{}).Unmarshal(data, &wire); err != nil {
-		return err
+		// Most likely a detail is of a type that isn't linked into this binary,
+		// which protojson can't represent. The code and the message don't
+		// depend on that: losing the details is better than losing the error.
+		var plain struct {
+			Code    string `json:"code"`
+			Message string `json:"message"`
+		}
+		if plainErr := json.Unmarshal(data, &plain); plainErr != nil {
+			return err
+		}
+		wire.Code, wire.Message, wire.Details = plain.Code, plain.Message, nil
 	}
 	if wire.Code == "" {
 		return nil
